@@ -320,7 +320,7 @@ META = {
                   'the bounded functions are ASSUMED by the deductive part (value preserved, result well formed); '
                   'python == on expression nodes implies equal value (C11 examines __eq__); floats as reals; power '
                   'laws a**0=1, a**1=a, 1**b=1; termination not proved. Known finding: under integer (truncating) '
-                  'division the distribution of quotients is not value preserving.',
+                  'division the distribution of quotients is not value preserving. The structured family includes n-ary products with three or four sign-carrying factors and with two or three quotient factors on one level.',
     'trusted_base': [
         'pyvc engine (CPython execution of the mechanically rewritten real function bodies, proxy classes, z3)',
         'pymbolic 2022.2 Mapper.__call__/rec dispatch: map_<mapper_method> of the node class is invoked',
